@@ -499,13 +499,13 @@ def Origin (s : Sys) (e : Emit) : Prop :=
   | .sumCopy | .classIndexSum | .allDocsSum =>
       e.ctx = none ∧ ∃ o, visible s o = true ∧ e.target ∈ (s.ob o).xrefs
   | .modIndexSum => e.ctx = none ∧ ∃ o, (visible s o = true ∨ o ∈ s.roots) ∧ e.target ∈ (s.ob o).xrefs
-  | .modIndexRoot => e.ctx = some e.page ∧ e.marked = some (isPrivate s e.target) ∧ e.target ∈ s.roots
+  | .modIndexRoot => e.ctx = some e.page ∧ e.marked = some (isPrivate s e.target) ∧ e.target ∈ s.roots ∧ visible s e.target = true
   | .modIndex =>
       e.ctx = some e.page ∧ e.marked = some (isPrivate s e.target) ∧ visible s e.target = true ∧
       ∃ r, r ∈ s.roots ∧ Desc s r e.target
   | .classIndex | .nameIndex | .undoc => e.ctx = some e.page ∧ visible s e.target = true
   | .allDocs => e.ctx = none ∧ e.marked = some ((s.ob e.target).privacy == .priv) ∧ visible s e.target = true
-  | .indexRoots => e.ctx = some e.page ∧ e.target ∈ s.roots
+  | .indexRoots => e.ctx = some e.page ∧ e.target ∈ s.roots ∧ visible s e.target = true
 
 theorem mem_sumLinks {s : Sys} {row : Row} {pg : File} {o : Nat} {e : Emit} (h : e ∈ sumLinks s row pg o) :
     e.row = row ∧ e.page = pg ∧ e.ctx = none ∧ e.target ∈ (s.ob o).xrefs := by
@@ -984,11 +984,12 @@ theorem origin_summary {s : Sys} {e : Emit} (h : e ∈ summaryEmits s) : Origin 
   simp only [List.mem_append] at h
   rcases h with ((((h | h) | h) | h) | h) | h
   · -- module index
-    obtain ⟨r, hr, he⟩ := List.mem_flatMap.mp h
+    obtain ⟨r, hr', he⟩ := List.mem_flatMap.mp h
+    obtain ⟨hr, hrv⟩ := List.mem_filter.mp hr'
     obtain ⟨h1, h2⟩ := mem_moduleSummary s _ true r e (by simp) he
     rcases h2 with ⟨hrow, _, ht, hc, hm⟩ | ⟨hrow, hc, hm, hv, hd⟩ | ⟨hrow, hc, o, ho, ht⟩
     · simp only [Origin, hrow]
-      exact ⟨hc, by rw [hm, ht], by rw [ht]; exact hr⟩
+      exact ⟨hc, by rw [hm, ht], by rw [ht]; exact hr, by rw [ht]; exact hrv⟩
     · simp only [Origin, hrow]
       exact ⟨hc, hm, hv, r, hr, hd⟩
     · simp only [Origin, hrow]
@@ -1009,7 +1010,8 @@ theorem origin_summary {s : Sys} {e : Emit} (h : e ∈ summaryEmits s) : Origin 
     simp only [Origin, link]; exact ⟨trivial, mem_visibleAll (List.mem_filter.mp ho).1⟩
   · split at h
     · obtain ⟨o, ho, rfl⟩ := List.mem_map.mp h
-      simp only [Origin, link]; exact ⟨trivial, ho⟩
+      obtain ⟨ho1, ho2⟩ := List.mem_filter.mp ho
+      simp only [Origin, link]; exact ⟨trivial, ho1, ho2⟩
     · simp at h
   · obtain ⟨o, ho, he⟩ := List.mem_flatMap.mp h
     have hv := mem_visibleAll ho
